@@ -706,7 +706,20 @@ func (m *Module) genCall(w *engine.World, r *engine.Rand) *engine.TxPlan {
 			a.Total = -1
 		}
 	}
-	return engine.Tx1(engine.NewOp(Name, "call", r.Intn(len(w.Actors)-1), a))
+	consumer := r.Intn(len(w.Actors) - 1)
+	tp := engine.Tx1(engine.NewOp(Name, "call", consumer, a))
+	if a.Repeated && m.cfg.PCluster > 0 && r.Bool(m.cfg.PCluster) {
+		// the same consumer opens two or three contexts with the same rhythm in one block: from
+		// then on their batches fall due together and draw on one balance
+		tp.At = w.Height + 1
+		for i := 1 + r.Intn(2); i > 0; i-- {
+			also := engine.Tx1(engine.NewOp(Name, "call", consumer, a))
+			also.At = tp.At
+			tp.Also = append(tp.Also, also)
+		}
+		w.Hit("svc.call_cluster")
+	}
+	return tp
 }
 
 func (m *Module) respondOp(w *engine.World, rq *request, signer int, custom bool, output, result string) *engine.Op {
